@@ -57,7 +57,7 @@ class Mangled(Unit):
 
         def inv(L):
             return SBool(z3.BoolVal(True))
-        eng.loops[("PDDLWriter._get_mangled_name", 0)] = LoopSpec(inv, types={"new_name": Str, "count": Int})
+        eng.loops[("unified_planning.io.pddl_writer.PDDLWriter._get_mangled_name", 0)] = LoopSpec(inv, types={"new_name": Str, "count": Int})
 
     def inverse(self, otn, nto):
         i, n = Item.fresh("i"), Str.fresh("n")
